@@ -56,6 +56,7 @@ type Exec struct {
 	Merges     int
 	MergeFails int
 	Cut        int // paths cut by assumptions
+	execStubN  int // calls of the text/template Execute stub so far (names its fresh inputs)
 	Undecided  int
 	Concrete   bool // concrete mode: no solver
 	MaxVisits  int
@@ -692,8 +693,40 @@ func (x *Exec) popFrame(s *State, result Value) {
 
 // raisePanic unwinds to the nearest vPanics frame; without one the panic is a finding
 // and the path ends. It returns true when execution continues.
+// unlockDeferred runs a deferred Mutex.Unlock; it returns a panic message if the mutex is not held.
+func (x *Exec) unlockDeferred(s *State, p Ptr) string {
+	sv, ok := s.load(p).(*StructVal)
+	if !ok || len(sv.F) == 0 {
+		return ""
+	}
+	st, ok := sv.F[0].(*smt.Term)
+	if !ok {
+		return ""
+	}
+	if !st.IsConst() {
+		// merged paths disagree on whether the mutex is held: the deferred Unlock releases it
+		// (an unlock of a free mutex on one of the merged paths is not reported here)
+		n := &StructVal{F: append([]Value(nil), sv.F...)}
+		n.F[0] = smt.Const(st.W, 0)
+		s.store(p, n)
+		return ""
+	}
+	if st.Val == 0 {
+		return "sync: unlock of unlocked mutex"
+	}
+	n := &StructVal{F: append([]Value(nil), sv.F...)}
+	n.F[0] = smt.Const(st.W, 0)
+	s.store(p, n)
+	return ""
+}
+
 func (x *Exec) raisePanic(s *State, msg string) bool {
 	for i := len(s.Frames) - 1; i >= 0; i-- {
+		// deferred unlocks of the frames the panic unwinds
+		for k := len(s.Frames[i].Defers) - 1; k >= 0; k-- {
+			x.unlockDeferred(s, s.Frames[i].Defers[k])
+		}
+		s.Frames[i].Defers = nil
 		if s.Frames[i].Catch {
 			call := s.Frames[i].Call
 			s.Frames = s.Frames[:i]
@@ -1007,6 +1040,16 @@ func (x *Exec) step(s *State) (stepResult, []*State, stopPoint) {
 		return stepDead, nil, stopPoint{}
 
 	case *ssa.RunDefers:
+		for i := len(f.Defers) - 1; i >= 0; i-- {
+			if msg := x.unlockDeferred(s, f.Defers[i]); msg != "" {
+				f.Defers = f.Defers[:i:i]
+				if x.raisePanic(s, msg) {
+					return stepCont, nil, stopPoint{}
+				}
+				return stepDead, nil, stopPoint{}
+			}
+		}
+		f.Defers = nil
 		f.IP++
 		return stepCont, nil, stopPoint{}
 
@@ -1018,6 +1061,13 @@ func (x *Exec) step(s *State) (stepResult, []*State, stopPoint) {
 		}
 		if !x.W.harmlessDefer(name) {
 			unsupported("defer of %s", name)
+		}
+		if name == "(*sync.Mutex).Unlock" {
+			p, ok := x.get(f, ins.Call.Args[0]).(Ptr)
+			if !ok {
+				unsupported("defer of Mutex.Unlock on %T", x.get(f, ins.Call.Args[0]))
+			}
+			f.Defers = append(f.Defers[:len(f.Defers):len(f.Defers)], p)
 		}
 		f.IP++
 		return stepCont, nil, stopPoint{}
